@@ -5,7 +5,7 @@ test) and from one random.Random instance.
 """
 import random, itertools, json
 
-FREE_POOL = ["ophelia", "a", "b1", "x_y", "a.b", "a-b", "A", "0", "café", "my asset", "v001", "char",
+FREE_POOL = ["ophelia", "a", "b1", "x_y", "a.b", "a-b", "A", "0", "café", "cafe\u0301", "ophe\u0301lia", "my asset", "v001", "char",
              "hamlet", "model_WORK_v001.ma_art", "a+b", "w", "ma", "sq001", "x", "y", "zz", "n_1", "tree.v2",
              "١٢", "a b", "_", "-", "cam", "main"]
 JUNK = ["", " ", "junk", "JUNK", "\n", "a\nb", "\x00", "\t", "foo bar", "é", "\U0001F600", "0", "-", ".", "..",
